@@ -1,26 +1,21 @@
-"""Per-property configuration of ./check (which Lean modules carry the theorems, what is trusted)."""
+"""Per-property configuration of ./check: one file cfg/Cxx.py per claimed property (CFG, META dicts)."""
+import os, glob, importlib.util
 
 TRUSTED_BASE = [
     "Lean 4.33.0 kernel (thorough tier: re-checked by leanchecker); axioms per theorem listed under coverage.theorems (only propext / Classical.choice / Quot.sound accepted; no native_decide, no bv_decide, no own axioms, no sorry)",
-    "hand-written Lean model of the anchored Go code, tied to /repo's working tree by the differential correspondence check (Go harness built -tags verif vs. compiled Lean driver ssqldrv on the same op lines) — modelled, not verified",
-    "Go harness, verif-tagged accessor hooks, line protocol, diff and this runner",
+    "hand-written Lean model of the anchored Go code, tied to /repo's working tree by the differential correspondence check (Go harness built -tags verif vs. compiled Lean driver ssqldrv on the same op lines) and by regenerated constants (Generated/Facts.lean) — modelled, not verified",
+    "Go harness, verif-tagged accessor hooks, factsgen, line protocol, diff and this runner",
     "Go runtime semantics (mutex mutual exclusion, FIFO channels, strconv/fmt formatting)",
 ]
 
-def P(n, extra_mods=(), **kw):
-    d = dict(lean_modules=[f"SsqlVerif.Props.{n}", f"SsqlVerif.Audit.{n}"] + list(extra_mods),
-             audit_files=[f"SsqlVerif/Audit/{n}.lean"])
-    d.update(kw)
-    return d
-
-PROPS = {
-    "C13": P("C13",
-        theorems=["C13.like_loop_eq_spec", "C13.like_loop_eq_spec_bytes", "C13.convertLike_sound",
-                  "C13.rewritten_eq_loop", "C13.isnull_paths_agree"],
-        distinct_by_op=True,
-        rule="ops are (text, pattern) pairs over {a,b,.,%,_} (patterns expanded into matching texts and perturbed), "
-             "sent to the three Go matchers, to convertLikeToFunction, and through SQL in WHERE / CASE / HAVING position; "
-             "IS [NOT] NULL ops over missing/NULL/present cells on four SQL paths; distinct = distinct op line",
-        assumptions=["expr-lang's ==, startsWith, endsWith, contains on strings are Go string equality / strings.HasPrefix / HasSuffix / Contains (validated only by the SQL-level correspondence)",
-                     "LIKE with a NULL/missing text is outside the property's quantifier and not generated"]),
-}
+PROPS, META = {}, {}
+_here = os.path.dirname(os.path.abspath(__file__))
+for _f in sorted(glob.glob(os.path.join(_here, "cfg", "C*.py"))):
+    _n = os.path.basename(_f)[:-3]
+    _spec = importlib.util.spec_from_file_location("cfg_" + _n, _f)
+    _m = importlib.util.module_from_spec(_spec)
+    _spec.loader.exec_module(_m)
+    _d = dict(lean_modules=[f"SsqlVerif.Props.{_n}", f"SsqlVerif.Audit.{_n}"], audit_files=[f"SsqlVerif/Audit/{_n}.lean"])
+    _d.update(_m.CFG)
+    PROPS[_n] = _d
+    META[_n] = _m.META
